@@ -16,7 +16,7 @@ func init() { register("C31", c31) }
 const isrv = "cmd/zoekt-sourcegraph-indexserver"
 
 func c31(p *an.Prog, r *an.R, tier string) {
-	r.Explanation = "C31 (structural clauses): indexMutex.With holds the read lock from entry to exit and calls f only while it is held and only when the repository was not already marked running; the running set is touched only under its own mutex; the marker is removed only by the call that set it; `true` is returned only after f ran and `false` only on the skip path where f is not called; Global holds the write lock around f. In the indexserver every index-directory mutator (Server.index, cleanup, removeTombstones, purgeTenantShards, explodeTenantCompoundShards, external zoekt-merge-index / zoekt-git-index / git processes) is reachable only through closures passed to With/Global, directory-scoped ones only through Global. Does NOT decide fairness/liveness."
+	r.Explanation = "C31 (structural clauses): indexMutex.With holds the read lock from entry to exit and calls f only while it is held and only when the repository was not already marked running; the running set is touched only under its own mutex; the marker is removed only by the call that set it; `true` is returned only after f ran and `false` only on the skip path where f is not called; Global holds the write lock around f. In the indexserver every index-directory mutator (Server.index, cleanup, removeTombstones, purgeTenantShards, explodeTenantCompoundShards, external zoekt-merge-index / zoekt-git-index / git processes) is reachable only through closures passed to With/Global, directory-scoped ones only through Global. The membership test of the running set and the insertion of the marker form one critical section of runningMu. Does NOT decide fairness/liveness."
 	r.Rule("C31.R1", "With/Global: the lock call precedes f() on every path, the unlock is deferred (no explicit unlock before f), `running` is accessed only between runningMu.Lock/Unlock, the removal of the running marker is installed only on the not-already-running path")
 	r.Rule("C31.R2", "With returns true only on paths through f() and false only on the alreadyRunning path, from which f() is unreachable")
 	r.Rule("C31.R3", "who-may-call: every call site of an index-directory mutator in the indexserver lies (transitively through its callers) inside a closure passed to indexMutex.With (repository-scoped) or indexMutex.Global (directory-scoped); exec sites that do not touch the index directory are listed exceptions")
